@@ -293,7 +293,11 @@ def fn_name(fn):
 
 def _yield_key(y):
     ch = y["child"]
-    return tagstr(ch.tag) if isinstance(ch, Opaque) else repr(ch)
+    if not isinstance(ch, Opaque):
+        return repr(ch)
+    for d, sg in enumerate(y.get("segs", ())):
+        ch = ops.subst_j(ch, sg.jvar, z3.Int(f"J{d}"))
+    return tagstr(ch.tag)
 
 
 def _expected_keys(req):
@@ -309,11 +313,12 @@ def _expected_keys(req):
                         out.append((tagstr(ops.seg_element(child, r, i).tag), 0, slot, label))
                 continue
             for it in child.items:
-                out.append((tagstr(it.tag), 1, slot, label))
+                out.append((tagstr(ops.subst_j(it, child.jvar, z3.Int("J0")).tag), 1, slot, label))
         elif isinstance(child, tuple) and child and child[0] == "nested":
             _, g, inner = child
             for it in inner.items:
-                out.append((tagstr(it.tag), 2, slot, label))
+                it2 = ops.subst_j(ops.subst_j(it, g.jvar, z3.Int("J0")), inner.jvar, z3.Int("J1"))
+                out.append((tagstr(it2.tag), 2, slot, label))
         else:
             out.append((tagstr(child.tag), 0, slot, label))
     return out
@@ -354,7 +359,7 @@ def check_kind_path(R, base, sig, p, node_prec, is_canary=False):
         for child, slot, label in v["req"]:
             if isinstance(child, Seg):  # generic spelling of expanded segments
                 for it in child.items:
-                    bykey.setdefault(tagstr(it.tag), (slot, label))
+                    bykey.setdefault(tagstr(ops.subst_j(it, child.jvar, z3.Int("J0")).tag), (slot, label))
         n_ok = 0
         for y in ys:
             key = _yield_key(y)
@@ -384,8 +389,14 @@ def check_kind_path(R, base, sig, p, node_prec, is_canary=False):
         R.ok_many(f"{base}/slot/{sig}", n_ok, "ground", f"{n_ok} (slot, child kind) precedence obligations")
         # gluing
         star_holes = {("txt",) + (k,) for k, d, slot, label in exp if slot.get("starred")}
-        star_keys = {k for k, d, slot, label in exp if slot.get("starred")}
-        hz = glue_hazards(c, v["res"], lambda h: isinstance(h.tag, tuple) and len(h.tag) == 2 and tagstr(h.tag[1]) in star_keys)
+        star_labels = {label for k, d, slot, label in exp if slot.get("starred")}
+        star_tags = set()
+        for child, slot, label in v["req"]:
+            if slot.get("starred"):
+                for it in (child.items if isinstance(child, Seg) else [child] if isinstance(child, Opaque) else []):
+                    star_tags.add(tagstr(it.tag))
+        hz = glue_hazards(c, v["res"], lambda h: isinstance(h.tag, tuple) and len(h.tag) == 2 and (
+            tagstr(h.tag[1]) in star_tags or any(tagstr(h.tag[1]).split(" ")[0].lstrip("(") == t.split(" ")[0].lstrip("(") for t in star_tags)))
         R.check(f"{base}/glue/{sig}", not hz, "; ".join(hz)[:1500] or "no token of a literal piece can merge with a neighbour",
                 replay=dict(kind="kind", kindname=v["kind"], facts=c.signature()))
     finally:
@@ -506,7 +517,7 @@ def g_trampoline(R, tier):
                         new = st[2]
                         R.valid(f"{base}/child-slot-is-requested-slot/{sig}", c,
                                 zint(new.fields["outer_precedence"]) == v["pslot"],
-                                "the pushed frame must carry the slot precedence the parent yielded")
+                                "the pushed frame must carry the slot precedence the parent yielded", replay=dict(kind="deep"))
                         R.check(f"{base}/child-node-is-requested-node/{sig}", new.fields["node"] is v["child"], repr(new.fields["node"]))
                         R.check(f"{base}/child-gets-parent-quote/{sig}", new.fields["qm_in"] is v["top"].fields["qm"],
                                 f"quote handed down: {new.fields['qm_in']!r}")
@@ -519,9 +530,9 @@ def g_trampoline(R, tier):
                     plain = tmplcmp.canon(c, conv) == tmplcmp.canon(c, v["text"])
                     R.check(f"{base}/result-is-text-or-parenthesised-text/{sig}", wrapped or plain, repr(conv))
                     if wrapped:
-                        R.valid(f"{base}/wrap-only-if-node-prec-gt-slot-prec/{sig}", c, v["npv"] > v["opv"])
+                        R.valid(f"{base}/wrap-only-if-node-prec-gt-slot-prec/{sig}", c, v["npv"] > v["opv"], replay=dict(kind="deep"))
                     elif plain:
-                        R.valid(f"{base}/plain-only-if-node-prec-le-slot-prec/{sig}", c, v["npv"] <= v["opv"])
+                        R.valid(f"{base}/plain-only-if-node-prec-le-slot-prec/{sig}", c, v["npv"] <= v["opv"], replay=dict(kind="deep"))
             finally:
                 sym.set_ctx(None)
 
@@ -766,7 +777,20 @@ def _c04r(name):
     return r
 
 
-REPLAY = {"kind": replay_kind, "slot": replay_slot, "table": replay_table, "quote": replay_quote,
+def replay_deep(rp):
+    from spec import samples
+    for src in samples.DEEP_SRC:
+        try:
+            node = samples.parse_expr(src)
+        except SyntaxError:
+            continue
+        ok, text, why = samples.roundtrip(_native_unparse(), node)
+        if not ok:
+            return dict(reproduced=True, input=src, output=text, why=why)
+    return dict(reproduced=False, tried=len(samples.DEEP_SRC))
+
+
+REPLAY = {"kind": replay_kind, "slot": replay_slot, "table": replay_table, "quote": replay_quote, "deep": replay_deep,
           "fstr": _c04r("fstr"), "fstr-backslash": _c04r("fstr-backslash"), "nest": _c04r("nest"), "const": _c04r("const")}
 
 
